@@ -196,6 +196,10 @@ class World:
         if op == 'sleep':
             self.sim.advance(int(st['s'] * 1000))
             return
+        if op == 'noise' and st.get('own_stale'):
+            node.add_stale_own_op(self.pkh, where=st.get('where', 'outdated'), n=st.get('n', 1))
+            self.bump(self.info, 'own_stale_operation_listed')
+            return
         if op == 'noise':
             node.add_noise_op(OTHERS[st.get('acct', 0) % len(OTHERS)], n=st.get('n', 1), where=st.get('where', 'validated'))
             return
